@@ -308,7 +308,8 @@ def f2_producer(F, R, M, pubs, dvars):
                 continue
             buf, dirn = r[2][0][2]
             dn = dirn[1].rsplit('::', 1)[1] if dirn[0] == 'agg' else '?'
-            rd_exhausted = any(touches(c[0], rd) and c[1][0] == 'in' and c[1][1] == (0,) for c in p.conds)
+            # the readable list yielded None on this path (discriminant is not Some = 1)
+            rd_exhausted = any(touches(c[0], rd) and ((c[1][0] == 'in' and 1 not in c[1][1]) or (c[1][0] == 'notin' and 1 in c[1][1])) for c in p.conds)
             if dn == 'DriverToDevice':
                 ok = touches(buf, rd) and not touches(buf, wr) and len(st_rd) == 1 and not st_wr
                 R.check(ok, 'F2', '%s:readable' % pb['id'], where, 'readable item from %s' % rd,
